@@ -686,3 +686,188 @@ pub mod position_apps {
     position_app!(render_skip_skip_lookup: render: Render<Event>, #[effect(skip)] compose: Compose<Event>, #[effect(skip)] compose2: Compose<Event>, lookup: Lookup<Event>);
     position_app!(lookup_skip_render_skip: lookup: Lookup<Event>, #[effect(skip)] compose: Compose<Event>, render: Render<Event>, #[effect(skip)] compose2: Compose<Event>);
 }
+
+// --- an app whose sampled values contain structs that are reached again unsampled ---------------
+//
+// `CardId(Tok)` cannot be traced blindly, so (as documented) the event, the view model and the
+// capability output are registered with sample values first. Each sample shows a plain struct and
+// a tuple struct holding an enum, in ONE variant of the outer enum and with ONE variant of the
+// inner enum; the same structs are reachable again through a sibling variant that is not sampled,
+// and the inner enums are registered nowhere on their own. The first variant of every outer enum
+// is a unit (the tracer revisits variant 0 of a complete enum without samples).
+
+pub mod sampled_app {
+    use super::readable_app::Tok;
+    use crux_core::capability::{CapabilityContext, Operation};
+    use crux_core::macros::{Capability, Effect, Export};
+    use crux_core::render::{render, Render};
+    use crux_core::Command;
+    use serde::{Deserialize, Serialize};
+
+    #[derive(Serialize, Deserialize, Debug, Clone, Copy, PartialEq, Eq)]
+    pub struct CardId(pub Tok);
+
+    macro_rules! inner_enum {
+        ($n:ident { $($v:ident),+ }) => {
+            #[derive(Serialize, Deserialize, Debug, Clone, Copy, PartialEq, Eq)]
+            pub enum $n { $($v),+ }
+        };
+    }
+    // two variants each: serde-reflection completes a nested enum by one variant per pass over
+    // the enclosing type, so the one unsampled sibling variant is exactly what lets generation
+    // succeed without registering the inner enum on its own (with three variants generation is
+    // refused with MissingVariants, which is explicit and therefore fine)
+    // event position
+    inner_enum!(State { Draft, Published });
+    inner_enum!(Mode { Plain, Bold });
+    // view model position
+    inner_enum!(Phase { Idle, Busy });
+    inner_enum!(Side { Left, Right });
+    // capability output position
+    inner_enum!(Rank { Low, High });
+    inner_enum!(Kind { Weak, Strong });
+
+    #[derive(Serialize, Deserialize, Debug, Clone, Copy, PartialEq, Eq)]
+    pub struct Card {
+        pub id: CardId,
+        pub state: State,
+    }
+    #[derive(Serialize, Deserialize, Debug, Clone, Copy, PartialEq, Eq)]
+    pub struct Pin(pub CardId, pub Mode);
+
+    #[derive(Serialize, Deserialize, Debug, Clone, Copy, PartialEq, Eq)]
+    pub struct Sheet {
+        pub id: CardId,
+        pub phase: Phase,
+    }
+    #[derive(Serialize, Deserialize, Debug, Clone, Copy, PartialEq, Eq)]
+    pub struct Tab(pub CardId, pub Side);
+
+    #[derive(Serialize, Deserialize, Debug, Clone, Copy, PartialEq, Eq)]
+    pub struct Hit {
+        pub id: CardId,
+        pub rank: Rank,
+    }
+    #[derive(Serialize, Deserialize, Debug, Clone, Copy, PartialEq, Eq)]
+    pub struct Link(pub CardId, pub Kind);
+
+    #[derive(Clone, Debug, PartialEq, Eq, Serialize, Deserialize)]
+    pub struct FetchRequest {
+        pub slot: u8,
+    }
+
+    #[derive(Clone, Debug, PartialEq, Eq, Serialize, Deserialize)]
+    pub enum FetchOut {
+        Nothing,
+        Fresh(Hit),
+        Cached(Hit),
+        Linked(Link),
+        Relinked(Link),
+    }
+
+    impl Operation for FetchRequest {
+        type Output = FetchOut;
+    }
+
+    #[derive(Capability)]
+    pub struct Fetch<Ev> {
+        #[allow(dead_code)]
+        context: CapabilityContext<FetchRequest, Ev>,
+    }
+
+    impl<Ev> Fetch<Ev> {
+        pub fn new(context: CapabilityContext<FetchRequest, Ev>) -> Self {
+            Self { context }
+        }
+    }
+
+    #[derive(Serialize, Deserialize, Debug)]
+    pub enum Event {
+        Close,
+        Show(Card),
+        Edit(Card),
+        Pin(Pin),
+        Unpin(Pin),
+        Ask(FetchRequest),
+        #[serde(skip)]
+        Got(FetchOut),
+    }
+
+    #[derive(Serialize, Deserialize, Debug, Clone, PartialEq, Eq, Default)]
+    pub enum ViewModel {
+        #[default]
+        Empty,
+        Showing(Sheet),
+        Editing(Sheet),
+        Pinned(Tab),
+        Loose(Tab),
+        Said(String),
+    }
+
+    #[derive(Default)]
+    pub struct Model {
+        pub view: ViewModel,
+    }
+
+    #[derive(Effect, Export)]
+    #[allow(dead_code)]
+    pub struct Capabilities {
+        pub render: Render<Event>,
+        pub fetch: Fetch<Event>,
+    }
+
+    #[derive(Default)]
+    pub struct SampledApp;
+
+    fn phase(s: State) -> Phase {
+        match s {
+            State::Draft => Phase::Idle,
+            State::Published => Phase::Busy,
+        }
+    }
+
+    fn side(m: Mode) -> Side {
+        match m {
+            Mode::Plain => Side::Left,
+            Mode::Bold => Side::Right,
+        }
+    }
+
+    impl crux_core::App for SampledApp {
+        type Event = Event;
+        type Model = Model;
+        type ViewModel = ViewModel;
+        type Capabilities = Capabilities;
+        type Effect = Effect;
+
+        fn update(&self, event: Event, model: &mut Model, _caps: &Capabilities) -> Command<Effect, Event> {
+            model.view = match event {
+                Event::Close => ViewModel::Empty,
+                Event::Show(c) => ViewModel::Showing(Sheet { id: c.id, phase: phase(c.state) }),
+                Event::Edit(c) => ViewModel::Editing(Sheet { id: c.id, phase: phase(c.state) }),
+                Event::Pin(p) => ViewModel::Pinned(Tab(p.0, side(p.1))),
+                Event::Unpin(p) => ViewModel::Loose(Tab(p.0, side(p.1))),
+                Event::Ask(op) => return Command::request_from_shell(op).then_send(Event::Got),
+                Event::Got(out) => ViewModel::Said(format!("{out:?}")),
+            };
+            render()
+        }
+
+        fn view(&self, model: &Model) -> ViewModel {
+            model.view.clone()
+        }
+    }
+
+    const ID: CardId = CardId(Tok([1, 2, 3, 4]));
+
+    /// One outer variant per struct kind, one (non-first) inner variant each.
+    pub fn event_samples() -> Vec<Event> {
+        vec![Event::Show(Card { id: ID, state: State::Published }), Event::Pin(Pin(ID, Mode::Bold))]
+    }
+    pub fn view_samples() -> Vec<ViewModel> {
+        vec![ViewModel::Showing(Sheet { id: ID, phase: Phase::Busy }), ViewModel::Pinned(Tab(ID, Side::Right))]
+    }
+    pub fn output_samples() -> Vec<FetchOut> {
+        vec![FetchOut::Fresh(Hit { id: ID, rank: Rank::High }), FetchOut::Linked(Link(ID, Kind::Strong))]
+    }
+}
